@@ -591,7 +591,11 @@ pub fn c14(ctx: &Ctx) -> Report {
     for k in 0..(if PENDING_FIX_MULTI_WRITE_STOP { 0 } else if ctx.thorough { 60 } else { 6 }) {
         after_write_error_session(ctx, &mut rng, &mut rep, k, &format!("c14w/{}/{k}", ctx.seed));
     }
-    rep.rule = "the same sessions as C12 (all kinds, CRC modes, timings, incl. mark-uninit + re-identification), judged by the card specification's violation list (frame format, CRC-7, end bit, command while busy, ACMD without CMD55, data command before identification, command during a multiple-block read) and by an independent frame parser in the harness (CRC-7 from the polynomial, CMD55 prefix, CMD18 ended by CMD12), plus sessions in which a transfer fails (corrupted data block, rejected write) and further calls follow; distinct = sessions".into();
+    // an identification that fails part way, then further calls without mark_card_uninit
+    for k in 0..(if ctx.thorough { 80 } else { 8 }) {
+        failed_init_session(ctx, &mut rng, &mut rep, k, &format!("c14i/{}/{k}", ctx.seed));
+    }
+    rep.rule = "the same sessions as C12 (all kinds, CRC modes, timings, incl. mark-uninit + re-identification), judged by the card specification's violation list (frame format, CRC-7, end bit, command while busy, ACMD without CMD55, data command before identification, command during a multiple-block read) and by an independent frame parser in the harness (CRC-7 from the polynomial, CMD55 prefix, CMD18 ended by CMD12), plus sessions in which a transfer fails (corrupted data block, rejected write) or the identification itself fails part way (SPI error after CMD8, card slower than the ACMD41 budget) and further calls follow; distinct = sessions".into();
     rep.distinct_nontrivial = rep.cases;
     rep
 }
@@ -661,6 +665,71 @@ fn after_error_session(ctx: &Ctx, rng: &mut Rng, rep: &mut Report, k: usize, tag
         if viol != "-" {
             let sig = if viol.contains("during multiple-block read") { "multi-read-not-stopped-after-error".to_string() } else { format!("protocol-after-error:{}", viol.split(' ').take(3).collect::<Vec<_>>().join("-")) };
             rep.violation("impl-vs-spec", &sig, &format!("a {} failed with `{}`; the next call `{}` then violates the protocol: {}", call.show(), trunc(&res, 60), c.show(), trunc(&viol, 200)), J::obj(vec![("case", J::s(tag.to_string())), ("kind", J::s(cfg.kind.token())), ("timing", J::s(format!("{:?}", cfg.timing)))]));
+            break;
+        }
+    }
+}
+
+/// An identification that FAILS part way - an SPI error at a transaction after the card has answered CMD8, or a
+/// card that needs more ACMD41 polls than the driver's budget - followed by further calls WITHOUT
+/// `mark_card_uninit`: the driver must start over with CMD0; a data command must never reach a card that has not
+/// completed identification (the card specification records it), and the failed identification must be an error.
+fn failed_init_session(ctx: &Ctx, rng: &mut Rng, rep: &mut Report, k: usize, tag: &str) {
+    let cfg0 = random_cfg(rng, k);
+    // (the slow card costs 10 000 polls per identification: one such case in the quick tier)
+    let variant = if k % 4 == 3 && !ctx.thorough && k != 3 { 1 } else { k % 4 };
+    let slow = variant == 3;
+    let timing = if slow { (cfg0.timing.0 % 3, cfg0.timing.1 % 8, cfg0.timing.2 % 8, 10_020) } else { (cfg0.timing.0, cfg0.timing.1 % 8, cfg0.timing.2 % 8, cfg0.timing.3) };
+    let seed = rng.next();
+    let mut fault_at: Option<usize> = None;
+    if !slow {
+        // a clean identification on a twin rig: where is the CMD8 frame, how many transactions in all?
+        let mut probe = Rig::new(&ctx.model_path, cfg0.kind, cfg0.csd.clone(), timing, cfg0.use_crc, cfg0.retries, seed);
+        let (_r, l, _d) = probe.call(&Call::CardType);
+        let i8 = match l.iter().position(|t| t.out.len() == 6 && t.out[0] == 0x48) { Some(i) => i, None => return };
+        let n = l.len();
+        if i8 + 3 >= n {
+            return;
+        }
+        // just after CMD8's answer / in the middle of the rest / the last transaction of the identification
+        fault_at = Some(match variant { 0 => i8 + 3, 1 => i8 + 3 + (n - i8 - 3) / 2, _ => n - 1 });
+    }
+    let mut rig = Rig::new(&ctx.model_path, cfg0.kind, cfg0.csd.clone(), timing, cfg0.use_crc, cfg0.retries, seed);
+    rep.cases += 1;
+    rep.count(&format!("failed-init:{}", ["spi-error-after-cmd8", "spi-error-mid-identification", "spi-error-last-transaction", "card-needs-more-acmd41-polls-than-budget"][variant]));
+    let mut in_multi = false;
+    let mut last_cmd = None;
+    rig.bus.borrow_mut().faults.spi_error_at = fault_at;
+    // the first call identifies (and fails); what it returns is compared with the model as always
+    let first = if k % 2 == 0 { Call::Read(1, 1) } else { Call::NumBlocks };
+    let (res, log, delays) = rig.call(&first);
+    rig.bus.borrow_mut().faults = Faults::default();
+    rep.ops += 1;
+    check_frames(rep, &log, tag, &first, &mut in_multi, &mut last_cmd);
+    correspond(rep, &mut rig, &first, &res, &log, delays, tag);
+    rep.oracle_checks += 1;
+    if !res.starts_with("err") {
+        rep.notes.push(format!("failed-init: `{}` did not fail ({}), variant {variant}", first.show(), trunc(&res, 40)));
+        return;
+    }
+    if !slow {
+        let (rt, lt, dt) = rig.call(&Call::CardType);
+        correspond(rep, &mut rig, &Call::CardType, &rt, &lt, dt, tag);
+    }
+    // (the query itself re-identifies: whatever it says, the calls below are judged by the card)
+    for c in [Call::Read(1, 2), Call::Write(3, vec![block_pattern(rng)]), Call::NumBlocks, Call::Write(5, vec![block_pattern(rng), block_pattern(rng)]), Call::Read(2, 3)] {
+        let (r2, log, delays) = rig.call(&c);
+        rep.ops += 1;
+        check_frames(rep, &log, tag, &c, &mut in_multi, &mut last_cmd);
+        correspond(rep, &mut rig, &c, &r2, &log, delays, tag);
+        let viol = rig.violations();
+        rep.oracle_checks += 1;
+        if viol != "-" {
+            rep.violation("impl-vs-spec", &format!("protocol-after-failed-init:{}", viol.split(' ').take(4).collect::<Vec<_>>().join("-")), &format!("the identification inside `{}` failed with `{}`; the next call `{}` then violates the protocol: {}", first.show(), trunc(&res, 60), c.show(), trunc(&viol, 200)), J::obj(vec![("case", J::s(tag.to_string())), ("kind", J::s(cfg0.kind.token())), ("timing", J::s(format!("{:?}", timing))), ("spi_error_at_transaction", J::s(format!("{:?}", fault_at)))]));
+            break;
+        }
+        if slow {
+            // every further identification costs 10 000 polls: one is enough
             break;
         }
     }
